@@ -13,7 +13,7 @@ CLAIMS = {
         "technique": "constant-evaluated table dump (clang APValue) compared with independent oracle tables and the ISA database; switch-coverage lint",
     },
     "C02": {
-        "text": "Decides: every register id packed into an AArch64 instruction word is range-validated on all CFG paths before the word is emitted (143 sites, validators derived from callee bodies); every encoding class is dispatched and every row indexes inside the data array its class reads; register field positions, stored opcode constants (806) and register-run checks agree with db/isa_aarch64.json; every 64-bit immediate is range-tested on all paths before it is narrowed to 32 bits (21 sites) and condition-code immediates are bounded by the CondCode enum. Does not decide immediate/offset field arithmetic.",
+        "text": "Decides: every register id packed into an AArch64 instruction word is range-validated on all CFG paths before the word is emitted (143 sites, validators derived from callee bodies); every encoding class is dispatched and every row indexes inside the data array its class reads; register field positions, stored opcode constants (806) and register-run checks agree with db/isa_aarch64.json; every 64-bit immediate is range-tested on all paths before it is narrowed to 32 bits (21 sites) and condition-code immediates are bounded by the CondCode enum; lossy operations on 64-bit immediates (masking, templated narrowing) need a dominating bound; the overloads of the register-id validators accept identical id sets (finite predicate folding); assembler lookup tables equal an architectural oracle; general-purpose register widths allowed per row equal the database notation (379 operand positions). Does not decide immediate/offset field arithmetic.",
         "design_ref": "DESIGN.md section 3 / C02",
         "note": _TB,
         "technique": "must/may forward dataflow over clang CFG (validate-before-emit), switch coverage, table-vs-database agreement",
@@ -54,7 +54,7 @@ CLAIMS = {
     },
     "C10": {
         "text": "Decides clauses C10.a-c: every write into the caller's buffer is bounded by dst_size, sections are inserted at a lower_bound over "
-                "(order, id), flatten's overflow exits precede any offset assignment. Does not decide layout arithmetic.",
+                "(order, id), flatten's overflow exits precede any offset assignment. Layout walks iterate the layout order; Section::real_size() folds to max(virtual, buffer) on a value grid. Does not decide layout arithmetic.",
         "design_ref": "DESIGN.md section 3 / C10",
         "note": _TB,
         "technique": "dominance of bounds tests over memcpy/memset sinks, structural comparator match, CFG reachability",
@@ -75,26 +75,26 @@ CLAIMS = {
     },
     "C13": {
         "text": "Decides clauses C13.a-c: signature/name tables regenerate identically, the packed name index satisfies the binary-search "
-                "preconditions for every id (exhaustive), the validation hook precedes any buffer commit and its failure reaches the error exit. "
-                "Does not decide per-form acceptance agreement.",
+                "preconditions for every id (exhaustive), the validation hook precedes any buffer commit and its failure reaches the error exit; the a64 name scan decodes every id; the x86 validator "
+                "adds the vm flags that match the index register type. Does not decide per-form acceptance agreement.",
         "design_ref": "DESIGN.md section 3 / C13",
         "note": _TB,
         "technique": "regeneration diff, exhaustive decode of dumped name tables, CFG dominance",
     },
     "C14": {
-        "text": "Decides guard/atomicity clauses: label ids validated before dereference; AArch64 register ids validated before packing; emit functions (x86, a64, Builder) reset one-shot state on every exit, commit bytes only on success, never reach an input-validation exit after a fixup/relocation/address-table commit; the shared failure exit resets state before the handler can throw; AArch64 64-bit immediates are range-tested before narrowing and condition codes are bounded by the enum. Does not decide that every invalid operand kind is rejected, nor operand-indexed table subscripts.",
+        "text": "Decides guard/atomicity clauses: label ids validated before dereference; AArch64 register ids validated before packing; emit functions (x86, a64, Builder) reset one-shot state on every exit, commit bytes only on success, never reach an input-validation exit after a fixup/relocation/address-table commit; the shared failure exit resets state before the handler can throw; AArch64 64-bit immediates are range-tested before narrowing and condition codes are bounded by the enum; label-count comparisons are strict; every failing return of an emitter interface function passes through report_error(). Does not decide that every invalid operand kind is rejected, nor operand-indexed table subscripts.",
         "design_ref": "DESIGN.md section 3 / C14",
         "note": _TB,
         "technique": "must-set / reachability dataflow on clang CFG, sibling-guard comparison, index-range vs table-length check",
     },
     "C15": {
-        "text": "Decides: no Error value is dropped outside a reviewed table (223 discards, type-resolved); allocation results are null-tested on the taken edge before use (67 sites); unchecked appends are dominated by a successful reserve on the same container; preconditions established by a helper are established on every path; acquire/release roll-back on every failing exit of six functions (path-sensitive). Does not decide leak freedom as a whole, commit-then-fail residue or retry equivalence.",
+        "text": "Decides: no Error value is dropped outside a reviewed table (223 discards, type-resolved); allocation results are null-tested on the taken edge before use (67 sites); unchecked appends are dominated by a successful reserve on the same container; preconditions established by a helper are established on every path; acquire/release roll-back on every failing exit of six functions (path-sensitive); freed blocks are not left linked; relocation entries are neutralised on failing exits; arena containers are untouched on allocation-failure exits; a failed acquisition's output is never what gets released; a failed attach leaves the emitter detached. Does not decide leak freedom as a whole or retry equivalence.",
         "design_ref": "DESIGN.md section 3 / C15",
         "note": _TB,
         "technique": "null-tested must-analysis, discarded-result lint with frozen exception table, dominance, free-escape typestate",
     },
     "C16": {
-        "text": "Decides: every arena-backed container, pointer and field mutated after construction of CodeHolder, BaseEmitter, BaseAssembler, BaseBuilder, BaseCompiler, BaseRAPass and ConstPool is reset in the closure of each reset entry point, or exempt with a reason (126 obligations); every override of on_attach/on_detach/on_reinit calls the handler it overrides on every path. Does not decide byte equality of recycled vs fresh generation nor address independence.",
+        "text": "Decides: every arena-backed container, pointer and field mutated after construction of CodeHolder, BaseEmitter, BaseAssembler, BaseBuilder, BaseCompiler, BaseRAPass and ConstPool is reset in the closure of each reset entry point, or exempt with a reason (126 obligations); array members are reset element-wise, ArenaHashBase::reset covers every field; every override of on_attach/on_detach/on_reinit calls the handler it overrides on every path. Does not decide byte equality of recycled vs fresh generation nor address independence.",
         "design_ref": "DESIGN.md section 3 / C16",
         "note": _TB,
         "technique": "reset-closure coverage over class fields (call graph + field writes), must-call rule, pointer-compare lint",
